@@ -174,6 +174,22 @@ def core_check(ctx, n, ios=False, stepwise=False):
                     known = 'F-C14-1'
                 steps.append(dict(step=sv[k], finding=known, device=jobs[i]['device'], netspoc=jobs[i]['netspoc'],
                                   stdout=res[i]['out'], family=model))
+        if not ios:
+            # shape of every intermediate ACL: new lines inserted top-down, then old lines deleted bottom-up (Cisco/StepSafe.v)
+            from vlib.cisco import parse_coq_term
+            text = ('From Coq Require Import List NArith.\nFrom NA Require Import Cisco.AsaAcl Cisco.StepSafe.\nImport ListNotations.\n'
+                    'Definition V := Eval vm_compute in shape_verdicts %s.\nPrint V.\n' % C.clist(items))
+            shp = parse_coq_term(ctx.coq_eval('shape_%s' % model, text))
+            nfree = 0
+            for k, i in enumerate(used):
+                mf, sc = shp[k]
+                if mf == 'true':
+                    nfree += 1
+                    if int(sc):
+                        bad.append(dict(model_vs_impl=0, model_diverges=0, impl_diverges=0, shape_lost=int(sc), device=jobs[i]['device'],
+                                        netspoc=jobs[i]['netspoc'], stdout=res[i]['out'], ranges=rs[i], family=model))
+            ctx.notes.append('ASA line core: %d of %d scripts are move-free; their intermediate ACLs all have the shape of Cisco/StepSafe.v' % (nfree, len(used)))
+            ctx.move_free_scripts = nfree
         return len(used), bad, sample, steps
     return len(used), bad, sample
 
@@ -264,6 +280,9 @@ def main(ctx, prop):
             for fam_ios in (False, True):
                 ncore, bad, sample, steps = core_check(ctx, 400 if q == 0 else 6000, ios=fam_ios, stepwise=True)
                 for b_ in bad:
+                    if b_.get('shape_lost'):
+                        breaks.append(dict(correspondence='ASA line core: a move-free script leaves the order "insert top-down, delete bottom-up" at step %d '
+                                                          '(hypothesis of C14_acl_insert_then_delete_safe)' % b_['shape_lost'], case=b_))
                     if b_['impl_diverges']:
                         failing.append(dict(what='%s line core: the script ends in an ACL that filters differently from the target' % b_['family'],
                                             replay=dict(property=prop, model=b_['family'], command='drc -q device code/router',
@@ -271,6 +290,8 @@ def main(ctx, prop):
                                             finding=None, key='corefinal'))
                 extra['core_stepwise_cases_%s' % ('IOS' if fam_ios else 'ASA')] = ncore
                 extra['core_stepwise_unsafe_%s' % ('IOS' if fam_ios else 'ASA')] = len(steps)
+                if not fam_ios:
+                    extra['core_move_free_scripts_ASA'] = getattr(ctx, 'move_free_scripts', None)
                 for st_ in steps:
                     failing.append(dict(what='%s line core: after command %d a packet on which old and new ACL agree gets another verdict'
                                         % (st_['family'], st_['step']),
